@@ -1,33 +1,467 @@
-// temporary probe (replaced below)
+//! C10 — loading corrupt or hostile serialized data fails cleanly and atomically.
+//!
+//! Fault enumeration against the real crate (this is the evidence for the decoder, which the Coq
+//! model does not contain): for a few small valid buffers every prefix, every single-bit flip,
+//! byte substitutions at every offset, random multi-byte corruption, header variants and arbitrary
+//! byte strings are loaded into a pre-populated engine under `catch`, with a per-case time and
+//! peak-RSS check.  After a failed load the engine must answer a fixed query set exactly as before
+//! and re-serialize to the same bytes; after a successful load every query kind and
+//! `serialize_raw` must run without a panic.
+//! Correspondence: `header_dispatch` (C10_Model.v) vs `verif_hooks::decode_class` on the same
+//! bytes (class and, through the decoder outcome, the payload offset), and the matcher skeleton on
+//! decoded rules that no parser would produce.
+#[path = "../wire_common.rs"]
+mod wire_common;
+use adblock::request::Request;
+use adblock::verif_hooks::decode_class;
 use adblock::Engine;
-fn vm(k: &str) -> u64 {
-    let s = std::fs::read_to_string("/proc/self/status").unwrap_or_default();
-    for l in s.lines() {
-        if l.starts_with(k) {
-            return l.split_whitespace().nth(1).and_then(|x| x.parse().ok()).unwrap_or(0);
+use implrun::*;
+use serde_json::json;
+use std::time::Instant;
+use wire_common::*;
+
+const SUBST: &[u8] = &[0x00, 0x01, 0x7f, 0x80, 0x8f, 0x90, 0x9f, 0xa0, 0xbf, 0xc0, 0xc1, 0xc2, 0xc4, 0xc6, 0xc7, 0xca, 0xcc, 0xcf, 0xd0, 0xd4, 0xd9, 0xda, 0xdb, 0xdc, 0xdd, 0xde, 0xdf, 0xe0, 0xff];
+const MAGIC: [u8; 4] = [0xd1, 0xd9, 0x3a, 0xaf];
+const GZ: [u8; 10] = [31, 139, 8, 0, 0, 0, 0, 0, 0, 255];
+/// a load that raises the peak RSS by more than this (kB) over the input size is class F25
+const ALLOC_LIMIT_KB: u64 = 32 * 1024;
+const SLOW_MS: u128 = 1500;
+
+fn base_lists(r: &mut Rng) -> Vec<Vec<String>> {
+    let s = |v: &[&str]| v.iter().map(|x| x.to_string()).collect::<Vec<_>>();
+    vec![
+        s(&["||ads.net^", "ad/foo$script,domain=a.com|~b.com", "@@||x.com^$generichide", "||r.com^$redirect=noop.js",
+            "||c.com^$csp=script-src 'none'", "||t.com^$tag=t1", "/adv[0-9]x/$important", "a.com##.ad", "a.com#@#.ad2",
+            "a.com##+js(foo, bar)", "a.com#@#+js(set)", "##.cls", "###id1", "##.cls > a", "a.com##.x:style(color: red)"]),
+        s(&["|https://foo.com/ads|", "banner*img^$image,third-party", "@@||foo.com/ok^", "||example.com^$tag=t2,script",
+            "foo.com,bar.foo.com##.box", "example.*##.ent", "~x.com##.notx", "a.com##div:has-text(x)", "##a[href*=\"ads\"]",
+            "||x.com/p$redirect-rule=1x1.gif", "track", "pixel"]),
+        rule_list(r, 6, 5),
+    ]
+}
+fn pre_rules() -> Vec<String> {
+    ["||pre.net^", "||tagged.net^$tag=t1", "pre.net##.pre", "##.cls", "||pre.net/r$redirect=noop.js", "pre.net##+js(foo, 1)", "||pre.net^$csp=img-src *"]
+        .iter().map(|s| s.to_string()).collect()
+}
+fn pre_engine() -> Engine {
+    let mut e = build(&pre_rules(), true, true, 0);
+    e.use_tags(&["t1", "zz"]);
+    e
+}
+fn fixed_queries() -> Vec<Query> {
+    let q = |u: &str, s: &str, t: &str| Query { url: u.into(), source: s.into(), ty: t.into() };
+    vec![
+        q("https://pre.net/x", "https://a.com/", "script"), q("https://tagged.net/x", "https://a.com/", "image"),
+        q("https://pre.net/r", "https://a.com/", "script"), q("https://pre.net/", "https://pre.net/", "document"),
+        q("https://ads.net/ad/foo", "https://a.com/", "script"), q("https://sub.r.com/a.js", "https://a.com/", "script"),
+        q("https://c.com/", "https://c.com/", "document"), q("https://t.com/adv1x/", "https://x.com/", "image"),
+        q("https://foo.com/ads", "https://example.com/", "image"), q("https://example.com/track/pixel/banner-img/", "https://a.com", "image"),
+        q("https://x.com/p", "https://a.com", "image"), q("http://localhost/adv7x/", "", "other"),
+    ]
+}
+
+struct Ctx {
+    pre: Engine,
+    qs: Vec<Query>,
+    base_answers: Vec<String>,
+    base_bytes: Vec<u8>,
+    hwm: u64,
+    hwm_ok: bool,
+    max_ms: u128,
+    max_alloc_kb: u64,
+}
+#[derive(Default)]
+struct Tally {
+    ok: u64,
+    err: u64,
+    classes: std::collections::BTreeMap<String, u64>,
+}
+
+/// One load of `bytes` into the pre-populated engine. Returns the decode class.
+fn attempt(cx: &mut Ctx, sm: &mut Summary, t: &mut Tally, bytes: &[u8], what: &str) -> &'static str {
+    sm.oracle_evaluations += 1;
+    let class = decode_class(bytes); // a first, stateless decode (also under test: must not panic)
+    let replay = json!({"kind": "load", "bytes": hex(bytes), "what": what});
+    let t0 = Instant::now();
+    let pre = std::mem::replace(&mut cx.pre, Engine::new(true));
+    let res = catch(std::panic::AssertUnwindSafe(move || {
+        let mut e = pre;
+        let r = e.deserialize(bytes).map_err(|x| format!("{:?}", x));
+        (e, r)
+    }));
+    let ms = t0.elapsed().as_millis();
+    cx.max_ms = cx.max_ms.max(ms);
+    let hwm = if cx.hwm_ok { vm_kb("VmHWM:") } else { 0 };
+    let grown = hwm.saturating_sub(cx.hwm);
+    cx.max_alloc_kb = cx.max_alloc_kb.max(grown);
+    if grown > ALLOC_LIMIT_KB + bytes.len() as u64 / 1024 {
+        sm.failure(Some("F25_decoder_allocates_length_prefix"),
+            &format!("loading {} bytes raised the peak RSS by {} kB ({} ms): the decoder allocates what a length prefix announces", bytes.len(), grown, ms), replay.clone());
+        reset_hwm();
+        cx.hwm = vm_kb("VmHWM:");
+    } else {
+        cx.hwm = cx.hwm.max(hwm);
+        if ms > SLOW_MS {
+            sm.failure(None, &format!("load took {} ms", ms), replay.clone());
         }
     }
-    0
-}
-fn main() {
-    let rules = vec![
-        "||ads.net^", "ad/foo$script,domain=a.com|~b.com", "@@||x.com^$generichide", "||r.com^$redirect=noop.js", "||c.com^$csp=script-src 'none'",
-        "||t.com^$tag=t1", "/adv*x/$important", "||p.com^$removeparam=utm", "a.com##.ad", "a.com#@#.ad2", "a.com##+js(foo, bar)", "a.com#@#+js(foo)",
-        "##.cls", "###id1", "##.cls > a", "a.com##.x:style(color: red)", "a.com##div:has-text(x)", "a.com#@#div:has-text(y)", "##a[href]",
-    ];
-    let e = Engine::from_rules_parametrised(rules.iter(), Default::default(), true, true);
-    println!("{}", adblock::verif_hooks::wire_json(&e));
-    let b = e.serialize_raw().unwrap();
-    println!("len {}", b.len());
-    let hex: String = b.iter().map(|x| format!("{:02x}", x)).collect();
-    println!("{}", hex);
-    for (name, len) in [("16M", 0x0100_0000u32), ("256M", 0x1000_0000u32)] {
-        let mut h = vec![0xd1, 0xd9, 0x3a, 0xaf, 0x00, 0xdb];
-        h.extend_from_slice(&len.to_be_bytes());
-        let before = vm("VmHWM:");
-        let t = std::time::Instant::now();
-        let mut e2 = Engine::new(true);
-        let r = e2.deserialize(&h);
-        println!("{} -> {:?} in {:?}; VmHWM {} -> {} kB", name, r.is_ok(), t.elapsed(), before, vm("VmHWM:"));
+    let (e, r) = match res {
+        Err(p) => {
+            sm.failure(None, &format!("deserialize panicked: {}", p), replay);
+            cx.pre = pre_engine();
+            return class;
+        }
+        Ok(x) => x,
+    };
+    *t.classes.entry(class.to_string()).or_insert(0) += 1;
+    match r {
+        Err(err) => {
+            t.err += 1;
+            if class == "ok" {
+                sm.failure(None, &format!("decode_class says ok but Engine::deserialize returned {}", err), replay.clone());
+            }
+            // atomicity: same answers, same bytes, same tags
+            let a = catch(std::panic::AssertUnwindSafe(|| (answers(&e, &cx.qs), e.serialize_raw().ok(), e.tag_exists("t1"), e.tag_exists("zz"))));
+            match a {
+                Ok((ans, Some(b), t1, zz)) if ans == cx.base_answers && b == cx.base_bytes && t1 && zz => cx.pre = e,
+                Ok((ans, b, t1, zz)) => {
+                    let first = ans.iter().zip(cx.base_answers.iter()).position(|(x, y)| x != y);
+                    sm.failure(None, &format!("failed load ({}) changed the engine: first differing answer {:?}, bytes equal {}, tags {} {}",
+                        err, first.map(|i| (&ans[i], &cx.base_answers[i])), b.as_deref() == Some(&cx.base_bytes[..]), t1, zz), replay);
+                    cx.pre = pre_engine();
+                }
+                Err(p) => {
+                    sm.failure(None, &format!("engine panics after a failed load ({}): {}", err, p), replay);
+                    cx.pre = pre_engine();
+                }
+            }
+        }
+        Ok(()) => {
+            t.ok += 1;
+            if class != "ok" {
+                sm.failure(None, &format!("Engine::deserialize succeeded but decode_class says {}", class), replay.clone());
+            }
+            let t1 = Instant::now();
+            let a = catch(std::panic::AssertUnwindSafe(|| {
+                let ans = answers(&e, &cx.qs);
+                let b = e.serialize_raw().map_err(|x| format!("{:?}", x));
+                (ans.len(), b, e.tag_exists("t1"), e.tag_exists("zz"))
+            }));
+            let ms2 = t1.elapsed().as_millis();
+            cx.max_ms = cx.max_ms.max(ms2);
+            match a {
+                Err(p) => sm.failure(None, &format!("engine panics after a successful load of corrupt data: {}", p), replay),
+                Ok((_, Err(s), _, _)) => sm.failure(None, &format!("serialize_raw fails after a successful load: {}", s), replay),
+                Ok((_, Ok(b), t1, zz)) => {
+                    if !(t1 && zz) {
+                        sm.failure(None, "enabled tags were lost by a successful load", replay.clone());
+                    }
+                    if ms2 > SLOW_MS {
+                        sm.failure(None, &format!("queries after load took {} ms", ms2), replay.clone());
+                    }
+                    // the re-serialized bytes load again (the engine's own output is never hostile)
+                    let mut e2 = Engine::new(true);
+                    if catch(std::panic::AssertUnwindSafe(|| e2.deserialize(&b).is_ok())) != Ok(true) {
+                        sm.failure(None, "bytes re-serialized after a successful load do not load", replay);
+                    }
+                }
+            }
+            cx.pre = pre_engine();
+        }
     }
+    class
+}
+
+fn class_code(c: &str) -> u8 {
+    match c {
+        "ok" | "rmp" => 0,
+        "version" => 1,
+        "noheader" => 2,
+        "legacy" => 3,
+        _ => 4,
+    }
+}
+
+fn header_case(cs: &mut Cases, bytes: &[u8], class: &str, nontrivial: bool) {
+    let shown = if bytes.len() > 48 { &bytes[..48] } else { bytes };
+    let expr = format!(
+        "N.eqb (class_code (header_dispatch {b})) {c} && bytes_eqb (dispatch_payload (header_dispatch {b})) {p}",
+        b = hx(bytes), c = cn(class_code(class)),
+        p = if class_code(class) == 0 { format!("(drop 5 {})", hx(bytes)) } else { "[]".to_string() }
+    );
+    cs.stat(&format!("class_{}", class));
+    cs.case(expr, json!({"bytes_prefix": hex(shown), "len": bytes.len(), "impl_class": class}), nontrivial);
+}
+
+/// Replace the first occurrence of `from` by `to`.
+fn surgery(b: &[u8], from: &[u8], to: &[u8]) -> Option<Vec<u8>> {
+    let i = b.windows(from.len()).position(|w| w == from)?;
+    let mut o = b[..i].to_vec();
+    o.extend_from_slice(to);
+    o.extend_from_slice(&b[i + from.len()..]);
+    Some(o)
+}
+
+fn main() {
+    let a = args();
+    let mut r = Rng::new(a.seed);
+    let mut sm = Summary::default();
+    let qs = fixed_queries();
+    let pre = pre_engine();
+    let base_answers = answers(&pre, &qs);
+    let base_bytes = pre.serialize_raw().unwrap();
+    let hwm_ok = reset_hwm() && vm_kb("VmHWM:") > 0;
+    let mut cx = Ctx { pre, qs, base_answers, base_bytes, hwm: vm_kb("VmHWM:"), hwm_ok, max_ms: 0, max_alloc_kb: 0 };
+    let mut tally = Tally::default();
+
+    if let Some(p) = &a.replay {
+        let v: serde_json::Value = serde_json::from_str(&std::fs::read_to_string(p).unwrap()).unwrap();
+        let bytes = unhex(v["replay"]["bytes"].as_str().unwrap_or(""));
+        let class = attempt(&mut cx, &mut sm, &mut tally, &bytes, "replay");
+        println!("bytes={} class={} ok={} err={} max_ms={} max_alloc_kb={}", bytes.len(), class, tally.ok, tally.err, cx.max_ms, cx.max_alloc_kb);
+        for f in sm.oracle_failures.iter().chain(sm.known_hits.iter()) {
+            println!("{}", f["what"]);
+        }
+        if !sm.oracle_failures.is_empty() || !sm.known_hits.is_empty() {
+            println!("VIOLATION property=C10 replay={}", p.display());
+            std::process::exit(1);
+        }
+        return;
+    }
+
+    let mut cs = Cases::new(&a.out, "Generated Wire_Model C10_Model");
+    sm.rule = "fault enumeration: every prefix, every single-bit flip and 29 byte substitutions at every offset of small valid buffers, random multi-byte corruption, header variants, arbitrary byte strings; each loaded into a pre-populated engine with tags enabled. Correspondence cases: header_dispatch vs decode_class on header variants and a sample of the corrupted buffers (non-trivial = the bytes start with the magic or the gzip header, or differ from them in one byte), plus decoded rules with the hostname-anchor bit and no hostname".into();
+
+    // ---- buffers
+    let lists = base_lists(&mut r);
+    let mut buffers: Vec<Vec<u8>> = vec![];
+    for (i, l) in lists.iter().enumerate() {
+        let e = build(l, i % 2 == 0, i != 1, 0);
+        buffers.push(e.serialize_raw().unwrap());
+    }
+    if a.scale > 1 {
+        for i in 0..12 {
+            let l = rule_list(&mut r, 4 + i % 5, 3 + i % 4);
+            buffers.push(build(&l, i % 2 == 0, i % 3 != 0, 0).serialize_raw().unwrap());
+        }
+    }
+    sm.extra.insert("buffer_sizes".into(), json!(buffers.iter().map(|b| b.len()).collect::<Vec<_>>()));
+
+    // ---- header variants (all of them are correspondence cases)
+    let mut variants: Vec<Vec<u8>> = vec![vec![], MAGIC.to_vec(), GZ.to_vec(), vec![0xd1], MAGIC[..3].to_vec(), GZ[..9].to_vec()];
+    for v in 0..=255u8 {
+        let mut b = MAGIC.to_vec();
+        b.push(v);
+        variants.push(b.clone());
+        b.extend_from_slice(&buffers[0][5..]);
+        variants.push(b);
+    }
+    for i in 0..4 {
+        for bit in 0..8 {
+            let mut b = buffers[0].clone();
+            b[i] ^= 1 << bit;
+            variants.push(b);
+        }
+    }
+    for i in 0..10 {
+        let mut b = GZ.to_vec();
+        b[i] ^= 1 << r.below(8);
+        b.extend_from_slice(&[1, 2, 3]);
+        variants.push(b);
+    }
+    let mut g = GZ.to_vec();
+    g.extend_from_slice(&buffers[0]);
+    variants.push(g);
+    let mut m2 = MAGIC.to_vec();
+    m2.extend_from_slice(&GZ);
+    variants.push(m2);
+    variants.push([&MAGIC[..], &[0u8][..]].concat());
+    variants.push([&MAGIC[..], &[0u8, 0xc0][..]].concat());
+    for v in &variants {
+        let c = attempt(&mut cx, &mut sm, &mut tally, v, "header variant");
+        header_case(&mut cs, v, c, true);
+    }
+
+    // ---- enumeration over the buffers
+    let mut sampled = 0usize;
+    for (bi, buf) in buffers.iter().enumerate() {
+        let n = buf.len();
+        // the untouched buffer loads
+        if attempt(&mut cx, &mut sm, &mut tally, buf, "valid buffer") != "ok" {
+            sm.failure(None, "a valid buffer does not load", json!({"kind": "load", "bytes": hex(buf)}));
+        }
+        for k in 0..n {
+            let c = attempt(&mut cx, &mut sm, &mut tally, &buf[..k], "prefix");
+            if k < 12 || r.chance(1, 40) {
+                header_case(&mut cs, &buf[..k], c, k >= 4);
+                sampled += 1;
+            }
+        }
+        for i in 0..n {
+            for bit in 0..8 {
+                let mut b = buf.clone();
+                b[i] ^= 1 << bit;
+                let c = attempt(&mut cx, &mut sm, &mut tally, &b, "bit flip");
+                if i < 6 || r.chance(1, 400) {
+                    header_case(&mut cs, &b, c, true);
+                    sampled += 1;
+                }
+            }
+        }
+        let subst: &[u8] = if bi < 2 || a.scale > 1 { SUBST } else { &SUBST[..12] };
+        for i in 0..n {
+            for &v in subst {
+                if buf[i] == v {
+                    continue;
+                }
+                let mut b = buf.clone();
+                b[i] = v;
+                let c = attempt(&mut cx, &mut sm, &mut tally, &b, "byte substitution");
+                if r.chance(1, 1500) {
+                    header_case(&mut cs, &b, c, true);
+                    sampled += 1;
+                }
+            }
+        }
+        // random multi-byte corruption, insertions and deletions
+        for _ in 0..(600 * a.scale) {
+            let mut b = buf.clone();
+            match r.below(4) {
+                0 => {
+                    for _ in 0..r.range(2, 6) {
+                        let i = r.below(b.len());
+                        b[i] = r.next() as u8;
+                    }
+                }
+                1 => {
+                    let i = r.range(5, b.len() - 1);
+                    let k = r.range(1, 8).min(b.len() - i);
+                    b.drain(i..i + k);
+                }
+                2 => {
+                    let i = r.range(5, b.len());
+                    for _ in 0..r.range(1, 6) {
+                        b.insert(i, r.pick(SUBST));
+                    }
+                }
+                _ => {
+                    let i = r.range(5, b.len() - 1);
+                    let j = r.range(5, b.len() - 1);
+                    let k = r.range(1, 16).min(b.len() - i.max(j));
+                    let chunk: Vec<u8> = b[j..j + k].to_vec();
+                    b[i..i + k].copy_from_slice(&chunk);
+                }
+            }
+            attempt(&mut cx, &mut sm, &mut tally, &b, "random corruption");
+        }
+    }
+    // ---- arbitrary byte strings (with and without a valid header)
+    for i in 0..(1500 * a.scale) {
+        let n = r.range(0, 40);
+        let mut b: Vec<u8> = if i % 2 == 0 { [&MAGIC[..], &[0u8][..]].concat() } else { vec![] };
+        for _ in 0..n {
+            // avoid 32-bit length markers with huge lengths here: they are probed separately below
+            let x = if r.chance(1, 3) { r.pick(SUBST) } else { r.next() as u8 };
+            b.push(x);
+        }
+        let c = attempt(&mut cx, &mut sm, &mut tally, &b, "arbitrary bytes");
+        if i % 10 == 0 {
+            header_case(&mut cs, &b, c, i % 2 == 0);
+        }
+    }
+
+    // ---- decoded rules no parser produces (F11): hostname-anchor bit without hostname, 1-byte complete regex
+    let shapes: &[(&str, &str, &str)] = &[
+        ("||ads.net^", "https://ads.net/x", "script"), ("||ads.net/path", "https://ads.net/path", "script"),
+        ("||ads.net^*/x.js", "https://ads.net/a/x.js", "script"), ("||ads.net/p|", "https://ads.net/p", "image"),
+        ("||ads.net^$important", "https://ads.net/x", "script"), ("@@||ads.net^", "https://ads.net/x", "script"),
+        ("||ads.net^$csp=img-src *", "https://ads.net/", "document"), ("||ads.net^$redirect=noop.js", "https://ads.net/x.js", "script"),
+    ];
+    for (rule, url, ty) in shapes {
+        let e = build(&[rule.to_string(), "||other.com^".to_string()], false, false, 0);
+        let b = e.serialize_raw().unwrap();
+        let Some(b2) = surgery(&b, &[&[0xa7u8][..], b"ads.net"].concat(), &[0xc0]) else {
+            sm.failure(None, "surgery: hostname field not found", json!({"rule": rule}));
+            continue;
+        };
+        sm.oracle_evaluations += 1;
+        let res = catch(std::panic::AssertUnwindSafe(|| {
+            let mut e2 = Engine::new(false);
+            e2.use_resources(resources());
+            let loaded = e2.deserialize(&b2).is_ok();
+            let req = Request::new(url, "https://a.com/", ty).unwrap();
+            let before = e.check_network_request(&req);
+            let after = e2.check_network_request(&req);
+            let csp = e2.get_csp_directives(&req);
+            let d = adblock::verif_hooks::dump_engine_blocker(&e2);
+            let f = d.lists.iter().flat_map(|(_, l)| l.iter()).flat_map(|(_, b)| b.iter()).find(|f| f.raw_line.is_none() && f.hostname.is_none() && f.mask & (1 << 21) != 0).cloned();
+            (loaded, before.matched || before.exception.is_some() || before.redirect.is_some(), after.matched || after.exception.is_some() || after.redirect.is_some() || csp.is_some(), f)
+        }));
+        match res {
+            Err(p) => sm.failure(None, &format!("decoded rule without hostname panics the matcher: {}", p), json!({"kind": "load", "bytes": hex(&b2), "rule": rule, "url": url})),
+            Ok((loaded, before, after, f)) => {
+                if !loaded {
+                    sm.failure(None, "surgery buffer does not load", json!({"kind": "load", "bytes": hex(&b2)}));
+                    continue;
+                }
+                let Some(f) = f else {
+                    sm.failure(None, "no anchored rule without hostname found after surgery", json!({"rule": rule}));
+                    continue;
+                };
+                let expr = format!(
+                    "res_eqb Bool.eqb (check_pattern (fun _ _ _ _ => true) {} {} None) (Ok {})",
+                    cn(f.mask), cstrs(&f.filter), cbool(after)
+                );
+                cs.stat("anchored_without_hostname");
+                cs.case(expr, json!({"rule": rule, "url": url, "matched_before_surgery": before, "matched_after": after, "mask": f.mask}), before);
+                if after {
+                    sm.failure(None, "a decoded hostname-anchored rule without hostname matched a request", json!({"kind": "load", "bytes": hex(&b2), "rule": rule, "url": url}));
+                }
+            }
+        }
+    }
+    {
+        // complete regex with a 1-byte pattern: "/a1/" -> "/"
+        let e = build(&["/a1/$script".to_string()], false, false, 0);
+        let b = e.serialize_raw().unwrap();
+        for to in [&[0xa1u8, b'/'][..], &[0xa0u8][..], &[0xa2u8, b'/', b'/'][..], &[0xa2u8, b'/', b'a'][..]] {
+            if let Some(b2) = surgery(&b, &[&[0xa4u8][..], b"/a1/"].concat(), to) {
+                sm.oracle_evaluations += 1;
+                let res = catch(std::panic::AssertUnwindSafe(|| {
+                    let mut e2 = Engine::new(false);
+                    let ok = e2.deserialize(&b2).is_ok();
+                    let req = Request::new("https://x.com/a1/", "https://a.com/", "script").unwrap();
+                    (ok, e2.check_network_request(&req).matched)
+                }));
+                if let Err(p) = res {
+                    sm.failure(None, &format!("complete-regex rule with a short pattern panics: {}", p), json!({"kind": "load", "bytes": hex(&b2)}));
+                }
+                let pat = &to[1..];
+                let want = if pat.len() >= 2 && pat[0] == b'/' && pat[pat.len() - 1] == b'/' { &pat[1..pat.len() - 1] } else { pat };
+                cs.stat("complete_regex_body");
+                cs.case(format!("res_eqb str_eqb (complete_regex_body {}) (Ok {})", hx(pat), hx(want)), json!({"pattern": hex(pat)}), true);
+            }
+        }
+    }
+
+    // ---- F25 probe: a 10-byte input whose str32 length prefix announces 256 MiB
+    if cx.hwm_ok {
+        reset_hwm();
+        cx.hwm = vm_kb("VmHWM:");
+        let mut h = MAGIC.to_vec();
+        h.extend_from_slice(&[0x00, 0xdb, 0x10, 0x00, 0x00, 0x00]);
+        attempt(&mut cx, &mut sm, &mut tally, &h, "str32 length prefix 256 MiB on a 10-byte input");
+    }
+
+    sm.extra.insert("loads".into(), json!(tally.ok + tally.err));
+    sm.extra.insert("loads_ok".into(), json!(tally.ok));
+    sm.extra.insert("loads_err".into(), json!(tally.err));
+    sm.extra.insert("decode_classes".into(), json!(tally.classes));
+    sm.extra.insert("max_case_ms".into(), json!(cx.max_ms as u64));
+    sm.extra.insert("max_peak_rss_growth_kb".into(), json!(cx.max_alloc_kb));
+    sm.extra.insert("peak_rss_probe_available".into(), json!(cx.hwm_ok));
+    sm.extra.insert("header_cases_sampled_from_enumeration".into(), json!(sampled));
+    sm.extra.insert("not_covered".into(), json!("no RLIMIT_AS (std only): allocation is observed through VmHWM growth per load and wall time per load; a 4 GiB length prefix is not tried at full size (the 256 MiB instance shows the mechanism); stack overflow on deeply nested input is not provoked beyond what the substitutions produce"));
+    cs.finish();
+    sm.write(&a.out, &cs);
 }
